@@ -80,13 +80,15 @@ def engine_views_consistent(eng):
 
 # ---- topologies through the real reader -------------------------------------------------------------
 def moltype_text(name, residues, nrexcl=1, bonds=None, mass=True):
-    """residues: list of (resname, [atom names]); atoms are bonded linearly (also across residues) unless `bonds` given"""
+    """residues: list of (resname, [atom names][, resid]); atoms are bonded linearly (also across residues) unless `bonds` given"""
     lines = ["[ moleculetype ]", "%s %d" % (name, nrexcl), "[ atoms ]"]
     idx = 0
-    for r, (resname, atoms) in enumerate(residues):
+    for r, item in enumerate(residues):
+        resname, atoms = item[:2]
+        resid = item[2] if len(item) > 2 else r + 1       # optional explicit residue number (numbering that restarts)
         for a in atoms:
             idx += 1
-            lines.append("%d T%s %d %s %s %d 0.0%s" % (idx, resname, r + 1, resname, a, idx, " 36.0" if mass else ""))
+            lines.append("%d T%s %d %s %s %d 0.0%s" % (idx, resname, resid, resname, a, idx, " 36.0" if mass else ""))
     if bonds is None:
         bonds = [(i, i + 1) for i in range(1, idx)]
     if bonds:
